@@ -648,7 +648,7 @@ func (v Value) export() interface{} {
 			keyKind := reflect.Invalid
 			elemKind := reflect.Invalid
 			state := 0
-			var t reflect.Type
+			var t, first reflect.Type
 			for index := range length {
 				name := strconv.FormatInt(int64(index), 10)
 				if !obj.hasProperty(name) {
@@ -674,8 +674,11 @@ func (v Value) export() interface{} {
 					kind = k
 					keyKind = kk
 					elemKind = ek
+					first = t
 					state = 1
-				} else if state == 1 && (kind != k || keyKind != kk || elemKind != ek) {
+				} else if state == 1 && (kind != k || keyKind != kk || elemKind != ek || first != t) {
+					// equal kinds are not enough: [][]int64 and [][]string share kind
+					// and element kind but are not assignable to each other
 					state = 2
 				}
 
